@@ -292,6 +292,13 @@ func (ge *GuardEngine) Sinks(fn *ssa.Function, env *Env, conds []Cond, chain []s
 				if callee != nil && ge.p.InModule(callee) && !isCoderPrimitive(callee) {
 					cs := append(append([]Cond{}, conds...), ge.domConds(fi, b, env)...)
 					out = append(out, ge.Sinks(callee, ge.calleeEnv(callee, &x.Call, env), cs, chain, depth+1, seen)...)
+				} else if callee == nil {
+					for _, f := range ge.calleesOf(&x.Call) {
+						if ge.p.InModule(f) && !isCoderPrimitive(f) {
+							cs := append(append([]Cond{}, conds...), ge.domConds(fi, b, env)...)
+							out = append(out, ge.Sinks(f, ge.calleeEnv(f, &x.Call, env), cs, chain, depth+1, seen)...)
+						}
+					}
 				}
 			}
 		}
@@ -587,8 +594,12 @@ func (s Sink) Discharged() (bool, string) {
 	return false, ""
 }
 
+var closureNumRe = regexp.MustCompile(`\$\d+`)
+
+// sinkKey names a sink by its enclosing function (closures by their parent: closure numbers change whenever a
+// sibling closure is added or removed), its kind and the expression fingerprint.
 func sinkKey(s Sink) string {
-	return FuncName(s.Fn) + ":" + s.Kind + ":" + s.Expr
+	return closureNumRe.ReplaceAllString(FuncName(s.Fn), "$") + ":" + s.Kind + ":" + s.Expr
 }
 
 func sortSinks(ss []Sink) {
